@@ -78,3 +78,9 @@ def setMany (idx : List Nat) : List Nat → List Nat → List Nat
   | _, _ => idx
 
 end PW
+
+namespace PW
+/-- `jnp.kron` of two flat (vector-level) blocks: entry `k` is `a[k / |b|] * b[k % |b|]` -/
+def kronFlat {R : Type} [Mul R] [Zero R] (a b : Array R) : Array R :=
+  Array.ofFn (n := a.size * b.size) fun k => a.getD (k.val / b.size) 0 * b.getD (k.val % b.size) 0
+end PW
